@@ -241,6 +241,9 @@ def zite(g, a, b):
     return z3.If(g, a, b)
 
 
+_MERGED_TAGS = {}
+
+
 def ite_val(g, a, b, memo=None):
     """Structured if-then-else (memoised on object identity so that shared sub-values stay shared)."""
     if same(a, b):
@@ -321,7 +324,15 @@ def _ite_val(g, a, b, memo):
         off = bv(len(a.backing), 64)
         return SliceRef(back, zite(g, a.start, b.start + off), zite(g, a.length, b.length))
     if isinstance(a, Opaque) and isinstance(b, Opaque):
-        return a if a.tag == b.tag else Opaque('merge(%s|%s)' % (a.tag, b.tag))
+        if a.tag == b.tag:
+            return a
+        # a merged opaque value is a new opaque value named after the pair; names are interned so that nested merges do
+        # not build exponentially long tags
+        k = (a.tag, b.tag)
+        t = _MERGED_TAGS.get(k)
+        if t is None:
+            t = _MERGED_TAGS[k] = 'merge#%d' % len(_MERGED_TAGS)
+        return Opaque(t)
     if isinstance(a, Model) and isinstance(b, Model) and a.kind == b.kind:
         out = {}
         for k in set(a.f) | set(b.f):
